@@ -614,6 +614,9 @@ class Interp:
         elif isinstance(v.sort, S.TTuple):
             for n in range(len(v.sort.elems)):
                 self.assume_wf_input(v.sort.item(v, n))
+        elif isinstance(v.sort, S.TOpt) and isinstance(v.sort.inner, (S.TList, S.TDict)):
+            # the payload of a None is unobservable, so its well-formedness can be assumed unconditionally
+            self.assume_wf_input(v.sort.payload(v))
 
     def assume_odict_wf_fact(self, d):
         """like assume_odict_wf but recorded as a path-global fact (the value is immutable: it holds in every state)"""
@@ -681,6 +684,7 @@ class Interp:
     def check_exit(self, fs, outcome):
         kind, val = outcome
         saved_locals = self.st.locals
+        self.final_locals = saved_locals
         # evaluate clauses over parameters at entry values (Python rebinding of params is local);
         # a lemma's conclusion may also speak about the ghost locals its body introduced
         env = dict(self.st.locals) if (fs.kind == "lemma" or fs.options.get("stmt")) else {}
@@ -1000,6 +1004,15 @@ class Interp:
         return False
 
     def st_With(self, s):
+        if len(s.items) == 1 and ast.unparse(s.items[0].context_expr).startswith("contextlib.suppress("):
+            # with contextlib.suppress(E1, ...): an exception of one of these classes ends the block silently
+            names = [ast.unparse(a) for a in s.items[0].context_expr.args]
+            try:
+                self.exec_block(s.body)
+            except PyRaise as e:
+                if not any(self.m.exc_is(e.exc.cls, n) or self.m.exc_is(e.exc.cls, n.split(".")[-1]) for n in names):
+                    raise
+            return
         for item in s.items:
             ctx = ast.unparse(item.context_expr)
             if ctx.startswith("contextlib.suppress"):
@@ -1409,6 +1422,10 @@ class Interp:
             if isinstance(so, S.TOpt) and isinstance(so.inner, S.TRef):
                 base = self.unwrap_opt(base, node)
                 so = base.sort
+            elif isinstance(so, S.TOpt) and isinstance(so.inner, (S.TList, S.TSet, S.TDict, S.TStrC)):
+                # method call on an Optional container: allowed where the path condition excludes None
+                base = self.coerce(base, so.inner)
+                so = base.sort
             if isinstance(so, S.TRef):
                 v = self.get_field(base, attr)
                 if v is not None:
@@ -1448,15 +1465,13 @@ class Interp:
             if self.spec:
                 f = z3.And if isinstance(n.op, ast.And) else z3.Or
                 return mk_bool(f(*[self.truthy(v) for v in vals]))
-            # value-returning and/or over non-bools: build ite chain
-            res = vals[-1]
-            for v in reversed(vals[:-1]):
-                t = self.truthy(v)
-                if isinstance(n.op, ast.Or) and isinstance(v, V) and isinstance(v.sort, S.TOpt) and isinstance(res, V) and not isinstance(res.sort, S.TOpt):
-                    v = v.sort.payload(v)  # `opt or default`: a truthy Optional is its payload
-                a, b = self.unify(v, res)
-                res = a.sort.ite(t, b, a) if isinstance(n.op, ast.And) else a.sort.ite(t, a, b)
-            return res
+            # value-returning and/or over non-bools: build ite chain (if the operand sorts cannot be unified the expression is
+            # only usable as a condition: its truth value)
+            try:
+                return self._boolop_value(n, vals)
+            except OutOfSubset:
+                f = z3.And if isinstance(n.op, ast.And) else z3.Or
+                return mk_bool(f(*[self.truthy(v) for v in vals]))
         cur = self.ev(n.values[0])
         for nxt in n.values[1:]:
             t = self.truthy(cur)
@@ -1467,6 +1482,16 @@ class Interp:
                 return cur
             cur = self.ev(nxt)
         return cur
+
+    def _boolop_value(self, n, vals):
+        res = vals[-1]
+        for v in reversed(vals[:-1]):
+            t = self.truthy(v)
+            if isinstance(n.op, ast.Or) and isinstance(v, V) and isinstance(v.sort, S.TOpt) and isinstance(res, V) and not isinstance(res.sort, S.TOpt):
+                v = v.sort.payload(v)  # `opt or default`: a truthy Optional is its payload
+            a, b = self.unify(v, res)
+            res = a.sort.ite(t, b, a) if isinstance(n.op, ast.And) else a.sort.ite(t, a, b)
+        return res
 
     def ex_UnaryOp(self, n):
         v = self.ev(n.operand)
